@@ -203,7 +203,12 @@ def run_batch(spec):
         ctr["programs_" + kind] += 1
         if nt:
             out["nontrivial"].append(nt)
-        for v in viol[:3]:
+        per_kind = {}
+        for v in viol:
+            # at most two per kind, so that many observations of one (possibly listed) mechanism cannot crowd out another
+            if per_kind.get(v[0], 0) >= 2 or sum(per_kind.values()) >= 10:
+                continue
+            per_kind[v[0]] = per_kind.get(v[0], 0) + 1
             out["violations"].append(_mk(v, src, prog, version, kind))
         if len(out["samples"]) < 2 and len(src) < 900 and nt:
             out["samples"].append({"gen": kind, "src": src})
